@@ -590,7 +590,7 @@ package gedcom
 //@   assigns H.gedcom.SimpleNode.children, G.gedcom.nodeCache, alloc
 //
 //@ func Decoder.Decode
-//@   props C03 C02
+//@   props C03 C02 C01
 // C02: every accepted line is attached exactly once, at level 0 to the
 // document and otherwise to the most recent node one level up. lastAt[d] is
 // history, not the code's stack: the node of the most recent accepted line at
@@ -618,6 +618,10 @@ package gedcom
 //@   loop 1 iter advances: implies(nAtt > old(nAtt), previousNode == node && lastTrim == old(previousNode))
 //@   loop 1 invariant trimmed: nTrim == nAtt
 //@   ensures trimmed-all: implies(isnil(result1), nTrim == nAtt + 1)
+// C01: the BOM flag of the document is what the reader found
+//@   ghost bom bool = false
+//@   oncall Decoder.consumeOptionalBOM do bom = result
+//@   ensures bom-flag: implies(isnil(result1), result0.HasBOM == bom)
 //@   safety
 //@   requires dec != nil
 //@   allowpanic "indent is too large" when !dec.AllowInvalidIndents
@@ -1037,3 +1041,73 @@ package gedcom
 //@   ensures grows: len(node.children) == old(len(node.children)) + 1
 //@   ensures last: node.children[len(node.children)-1] == n
 //@   ensures kept: forall(i, 0, old(len(node.children)), node.children[i] == old(node.children[i]))
+
+// ---------------------------------------------------------------------------
+// C01: the line reader is the inverse of the line writer. The language is what
+// the encoder writes for GEDCOM-legal parts (from the property text): level
+// as %d (any depth), optional "@ptr@ " (pointer without '@' or line breaks), a tag
+// of letters, digits and underscore, and optionally a blank and a value
+// without line breaks or surrounding blanks. Groups: g1 level, g2 the xref
+// with its trailing blank (parseLine trims it), g3 tag, g4 value.
+//@ rxp line-reader-inverts-writer props C01 regexp lineRegexp language: (?P<g1>0|[1-9][0-9]*) (?P<g2>@[^@\r\n]+@ )?(?P<g3>[A-Za-z0-9_]+)( (?P<g4>[^ \t\r\n]([^\r\n]*[^ \t\r\n])?))?
+
+// C01: the line writer. The text is built in a bytes.Buffer (modelled by the
+// ghost string `out`: each write appends, String() returns it) and is exactly
+//   level-and-blank (if indent >= 0), "@ptr@ " (if a pointer), tag,
+//   blank and value (if a value)  -  in that order.
+//@ func SimpleNode.GEDCOMLine
+//@   props C01
+//@   requires node != nil
+//@   ghost out string = ""
+//@   ghost ptr string = ""
+//@   ghost tagText string = ""
+//@   ghost val string = ""
+//@   oncall SimpleNode.Pointer do ptr = result
+//@   oncall Tag.Tag do tagText = result
+//@   oncall SimpleNode.Value do val = result
+//@   oncall bytes.Buffer.WriteString do out = out + arg1
+//@   oncall bytes.Buffer.WriteByte check blank: arg1 == 32
+//@   oncall bytes.Buffer.WriteByte do out = out + " "
+//@   oncall bytes.Buffer.String assume result == out
+//@   let o1 = ite(indent >= 0, fmtLevel(indent), "")
+//@   ensures format: result == ite(val != "", ((ite(ptr != "", o1 + fmtXref(ptr), o1) + tagText) + " ") + val, ite(ptr != "", o1 + fmtXref(ptr), o1) + tagText)
+//@   ensures reads: ptr == node.pointer && val == node.value && tagText == node.tag.tag
+
+// C01: a node is written as its line followed by its children, in order, one
+// level deeper (pre-order; level = depth).
+//@ const NOINDENT = 0 - 1
+//@ func Encoder.renderNode
+//@   props C01
+//@   requires enc != nil
+//@   ghost nLine int = 0
+//@   ghost nWrite int = 0
+//@   ghost nKids int = 0
+//@   oncall Node.GEDCOMLine do nLine = nLine + 1
+//@   oncall Node.GEDCOMLine check own-line: arg0 == node && arg1 == indent && nWrite == 0 && nKids == 0
+//@   oncall Writer.Write do nWrite = nWrite + 1
+//@   oncall Writer.Write check line-first: nLine == 1 && nKids == 0
+//@   oncall Encoder.renderNode do nKids = nKids + 1
+//@   oncall Encoder.renderNode check child: arg0 == enc && arg2 == child && arg1 == ite(indent == NOINDENT, NOINDENT, indent + 1) && nWrite == 1
+//@   loop 1 iter each-child: nKids - old(nKids) == 1
+//@   ensures wrote: nLine == 1 && nWrite == 1
+//@   assigns everything
+
+// C01: the document is the optional BOM followed by the root records in order
+// at the start level.
+//@ func Encoder.Encode
+//@   props C01
+//@   requires enc != nil && enc.document != nil
+//@   ghost nBom int = 0
+//@   ghost nRoots int = 0
+//@   oncall Encoder.restoreOptionalBOM do nBom = nBom + 1
+//@   oncall Encoder.restoreOptionalBOM check first: nRoots == 0
+//@   oncall Encoder.renderNode do nRoots = nRoots + 1
+//@   oncall Encoder.renderNode check root: arg0 == enc && arg1 == enc.startIndent && arg2 == node && nBom == 1
+//@   loop 1 iter each-root: nRoots - old(nRoots) == 1
+//@ func Encoder.restoreOptionalBOM
+//@   props C01
+//@   requires enc != nil && enc.document != nil
+//@   ghost nW int = 0
+//@   oncall Writer.Write do nW = nW + 1
+//@   ensures bom-iff: nW == ite(enc.document.HasBOM, 1, 0)
+//@   assigns everything
